@@ -190,6 +190,9 @@ def run(ctx):
             els.append(xmlcanon.el(kind, [('id', 'e%d' % j), ('xy', '%s|%s %s' % (ref, d, fmt(g)))] + size))
             exps.append((kind, e))
         xml = '<svg>' + ''.join(els) + '</svg>'
+        if rng.chance(0.2):      # ids are XML names: letters of any script (and an ASCII prefix of one of them as another id)
+            alt = rng.choice(['gr\u00f6\u00dfe', 'b\u00e9', '\u03b1', '\u00fcber'])
+            xml = xml.replace('"e1"', '"%s"' % alt).replace('#e1|', '#%s|' % alt).replace('#e1@', '#%s@' % alt)
         docs.append((doc_case('d%d' % di, xml, {'add_auto_styles': False}), exps, xml))
     dres = lib.run_impl([d[0] for d in docs])
     for c, exps, xml in docs:
